@@ -337,7 +337,10 @@ Definition read_Context : Rd Context :=
   if n =? 0 then fail Invalid else
   m <- read_vec n ;;
   o <- read_ProofOptions ;;
-  ret (mkCtx t m o).
+  (* the two limits of Context::new, checked by the reader (trace_length.checked_mul(blowup_factor)) *)
+  if ti_length t >? 2 ^ 32 - 1 then fail Invalid else
+  if (ti_length t * po_blowup_factor o <=? usize_max) && (ti_length t * po_blowup_factor o <=? 2 ^ 32 - 1)
+  then ret (mkCtx t m o) else fail Invalid.
 
 (* ------------------------------------------------------- commitments.rs, queries.rs, ood_frame.rs (blobs) *)
 Definition Commitments := bytes.
@@ -374,6 +377,8 @@ Definition read_FriProof : Rd FriProof :=
   layers <- read_many read_FriProofLayer n ;;
   r <- read_blob 2 ;;
   np <- read_u8 ;;
+  (* num_partitions is stored as a log2: num_partitions as u32 >= usize::BITS is rejected *)
+  if np >=? 64 then fail Invalid else
   ret (mkFri layers r np).
 
 (* ---------------------------------------------------------------------------------- air/src/proof/mod.rs *)
